@@ -1689,8 +1689,8 @@ Definition valid_fa (lr : fa_layout * rec) : Prop :=
   Forall eolb'' (l_blank l) /\
   rid r <> [] /\ Forall (fun c => is_sep c = false) (rid r) /\
   Forall (fun c => is_eol c = false) (rdef r) /\ (forall c d, rdef r = c :: d -> is_space c = false) /\
-  l_segs l <> [] /\ Forall (fun s => s <> []) (l_segs l) /\ concat (l_segs l) = rseq r /\
-  Forall (fun c => is_seqlow c = true) (rseq r) /\
+  l_segs l <> [] /\ Forall (fun s => s <> []) (l_segs l) /\ map lower (concat (l_segs l)) = rseq r /\
+  Forall (fun c => is_seqlow (lower c) = true) (concat (l_segs l)) /\
   rqual r = None /\ rtax r = None /\ rsci r = [].
 
 Lemma seqlow_facts : forall c, is_seqlow c = true -> lower c = c /\ is_sep c = false /\ (c =? 62)%N = false.
@@ -1707,6 +1707,18 @@ Proof.
     destruct (c =? 10)%N eqn:E3; [apply N.eqb_eq in E3; subst c; discriminate|].
     destruct (c =? 13)%N eqn:E4; [apply N.eqb_eq in E4; subst c; discriminate|]. reflexivity.
   - destruct (c =? 62)%N eqn:E1; [apply N.eqb_eq in E1; subst c; discriminate|reflexivity].
+Qed.
+
+(* upper-case nucleotides are accepted and lower-cased *)
+Lemma seqany_facts : forall c, is_seqlow (lower c) = true -> is_sep c = false /\ (c =? 62)%N = false.
+Proof.
+  intros c H. unfold lower in H. destruct (is_upper c) eqn:E.
+  - unfold is_upper in E. apply andb_true_iff in E. destruct E as [E1 E2]. apply N.leb_le in E1, E2.
+    unfold is_sep, is_space, is_eol. split.
+    + destruct (c =? 32)%N eqn:K1; [apply N.eqb_eq in K1; lia|]. destruct (c =? 9)%N eqn:K2; [apply N.eqb_eq in K2; lia|].
+      destruct (c =? 10)%N eqn:K3; [apply N.eqb_eq in K3; lia|]. destruct (c =? 13)%N eqn:K4; [apply N.eqb_eq in K4; lia|]. reflexivity.
+    + apply N.eqb_neq. lia.
+  - destruct (seqlow_facts c H) as (_ & H2 & H3). auto.
 Qed.
 
 (* the state after the header and k bytes of sequence, in terms of what has been read *)
@@ -1763,14 +1775,14 @@ Proof.
 Qed.
 
 Lemma run_seg6 : forall seg idb defb seqb id def prev out,
-  Forall (fun c => is_seqlow c = true) seg ->
-  exists p, fa_run (st6 id def seqb prev out idb defb) seg = Some (st6 id def (rev seg ++ seqb) p out idb defb).
+  Forall (fun c => is_seqlow (lower c) = true) seg ->
+  exists p, fa_run (st6 id def seqb prev out idb defb) seg = Some (st6 id def (rev (map lower seg) ++ seqb) p out idb defb).
 Proof.
   induction seg as [|c seg IH]; intros idb defb seqb id def prev out Hf; [eexists; reflexivity|].
   inversion Hf; subst. cbn [fa_run]. unfold st6 at 1. unfold fa_step. cbn [fa_s fa_idb fa_defb fa_seqb fa_id fa_def fa_out fa_prev].
-  destruct (seqlow_facts c H1) as (Hl & Hs & H62). unfold is_sep in Hs. rewrite H62, Hs, Hl, H1. cbn [negb].
-  fold (st6 id def (c :: seqb) c out idb defb).
-  destruct (IH idb defb (c :: seqb) id def c out H2) as (p & Hp). exists p. rewrite Hp. cbn [rev]. rewrite <- app_assoc. reflexivity.
+  destruct (seqany_facts c H1) as (Hs & H62). unfold is_sep in Hs. rewrite H62, Hs, H1. cbn [negb].
+  fold (st6 id def (lower c :: seqb) (lower c) out idb defb).
+  destruct (IH idb defb (lower c :: seqb) id def (lower c) out H2) as (p & Hp). exists p. rewrite Hp. cbn [map rev]. rewrite <- app_assoc. reflexivity.
 Qed.
 
 Lemma eol_is_eols : forall e, e = [10%N] \/ e = [13%N; 10%N] -> Forall eolb'' e /\ e <> [].
@@ -1779,9 +1791,9 @@ Proof. intros e [H|H]; subst e; split; try discriminate; repeat constructor. Qed
 (* the sequence lines *)
 Lemma run_segs6 : forall eol segs idb defb seqb id def prev out,
   (eol = [10%N] \/ eol = [13%N; 10%N]) ->
-  Forall (fun c => is_seqlow c = true) (concat segs) -> is_eol prev = true ->
+  Forall (fun c => is_seqlow (lower c) = true) (concat segs) -> is_eol prev = true ->
   exists p, fa_run (st6 id def seqb prev out idb defb) (print_seq eol segs) =
-            Some (st6 id def (rev (concat segs) ++ seqb) p out idb defb) /\ is_eol p = true.
+            Some (st6 id def (rev (map lower (concat segs)) ++ seqb) p out idb defb) /\ is_eol p = true.
 Proof.
   intros eol. induction segs as [|s segs IH]; intros idb defb seqb id def prev out He Hf Hprev.
   - exists prev. split; [reflexivity|exact Hprev].
@@ -1790,10 +1802,10 @@ Proof.
     destruct (run_seg6 s idb defb seqb id def prev out Hs) as (p1 & Hr1). rewrite Hr1.
     destruct (eol_is_eols eol He) as (Hee & Hne).
     rewrite fa_run_app.
-    destruct (run_eols6 eol idb defb (rev s ++ seqb) id def p1 out Hee (or_introl Hne)) as (p2 & Hr2 & Hp2). rewrite Hr2.
-    destruct (IH idb defb (rev s ++ seqb) id def p2 out He Hf Hp2) as (p & Hr & Hp).
+    destruct (run_eols6 eol idb defb (rev (map lower s) ++ seqb) id def p1 out Hee (or_introl Hne)) as (p2 & Hr2 & Hp2). rewrite Hr2.
+    destruct (IH idb defb (rev (map lower s) ++ seqb) id def p2 out He Hf Hp2) as (p & Hr & Hp).
     fold (print_seq eol segs). rewrite Hr. exists p. split; [|exact Hp].
-    cbn [concat]. rewrite rev_app_distr, <- app_assoc. reflexivity.
+    cbn [concat]. rewrite map_app, rev_app_distr, <- app_assoc. reflexivity.
 Qed.
 
 (* what follows the '>' of a printed record *)
@@ -1839,9 +1851,9 @@ Proof.
   (* the first sequence line *)
   destruct (l_segs l) as [|s0 segs] eqn:Hsg; [contradiction|]. inversion Hsegs as [|? ? Hs0ne Hsegs']; subst.
   destruct s0 as [|q0 s0]; [contradiction|].
-  rewrite <- Hcat in Hseq. cbn [concat app] in Hseq. inversion Hseq as [|? ? Hq0 Hrest]; subst.
+  cbn [concat app] in Hseq. inversion Hseq as [|? ? Hq0 Hrest]; subst.
   apply Forall_app in Hrest. destruct Hrest as [Hs0 Hsegsq].
-  destruct (seqlow_facts q0 Hq0) as (Hlq & Hsq & _).
+  destruct (seqany_facts q0 Hq0) as (Hsq & _).
   assert (Hq0e : is_eol q0 = false) by (unfold is_sep in Hsq; apply orb_false_iff in Hsq; tauto).
   (* what happens from state 5 on: common to both header shapes *)
   assert (Hseqpart : forall idb2 defb2 seqb2 prev2,
@@ -1849,18 +1861,18 @@ Proof.
                      (print_seq (l_eol l) ((q0 :: s0) :: segs) ++ l_blank l) =
               Some (mkfa 6%nat idb2 defb2 (rev (rseq r)) (i0 :: ids) (rdef r) p out) /\ is_eol p = true).
   { intros idb2 defb2 seqb2 prev2. unfold print_seq. cbn [map concat app fa_run].
-    unfold fa_step at 1. cbn [fa_s fa_idb fa_defb fa_seqb fa_id fa_def fa_out fa_prev]. rewrite Hq0e, Hlq, Hq0.
-    fold (st6 (i0 :: ids) (rdef r) [q0] q0 out idb2 defb2).
+    unfold fa_step at 1. cbn [fa_s fa_idb fa_defb fa_seqb fa_id fa_def fa_out fa_prev]. rewrite Hq0e, Hq0.
+    fold (st6 (i0 :: ids) (rdef r) [lower q0] (lower q0) out idb2 defb2).
     rewrite <- !app_assoc. rewrite fa_run_app.
-    destruct (run_seg6 s0 idb2 defb2 [q0] (i0 :: ids) (rdef r) q0 out Hs0) as (p2 & Hr2). rewrite Hr2.
+    destruct (run_seg6 s0 idb2 defb2 [lower q0] (i0 :: ids) (rdef r) (lower q0) out Hs0) as (p2 & Hr2). rewrite Hr2.
     rewrite fa_run_app.
-    destruct (run_eols6 (l_eol l) idb2 defb2 (rev s0 ++ [q0]) (i0 :: ids) (rdef r) p2 out Hee (or_introl Heone)) as (p3 & Hr3 & Hp3).
+    destruct (run_eols6 (l_eol l) idb2 defb2 (rev (map lower s0) ++ [lower q0]) (i0 :: ids) (rdef r) p2 out Hee (or_introl Heone)) as (p3 & Hr3 & Hp3).
     rewrite Hr3. fold (print_seq (l_eol l) segs). rewrite fa_run_app.
-    destruct (run_segs6 (l_eol l) segs idb2 defb2 (rev s0 ++ [q0]) (i0 :: ids) (rdef r) p3 out Heol Hsegsq Hp3) as (p4 & Hr4 & Hp4).
+    destruct (run_segs6 (l_eol l) segs idb2 defb2 (rev (map lower s0) ++ [lower q0]) (i0 :: ids) (rdef r) p3 out Heol Hsegsq Hp3) as (p4 & Hr4 & Hp4).
     rewrite Hr4.
-    destruct (run_eols6 (l_blank l) idb2 defb2 (rev (concat segs) ++ rev s0 ++ [q0]) (i0 :: ids) (rdef r) p4 out Hblank (or_intror Hp4)) as (p5 & Hr5 & Hp5).
+    destruct (run_eols6 (l_blank l) idb2 defb2 (rev (map lower (concat segs)) ++ rev (map lower s0) ++ [lower q0]) (i0 :: ids) (rdef r) p4 out Hblank (or_intror Hp4)) as (p5 & Hr5 & Hp5).
     rewrite Hr5. exists p5. split; [|exact Hp5]. unfold st6. f_equal. f_equal.
-    rewrite <- Hcat. cbn [concat app rev]. rewrite rev_app_distr. rewrite <- app_assoc. reflexivity. }
+    rewrite <- Hcat. cbn [concat app map rev]. rewrite map_app, rev_app_distr. rewrite <- app_assoc. reflexivity. }
   assert (Hne : rseq r <> []) by (rewrite <- Hcat; discriminate).
   destruct (rdef r) as [|d0 d] eqn:Hrd.
   - (* no definition: the line end follows the identifier *)
@@ -1958,12 +1970,13 @@ Proof.
 Qed.
 
 (** * FASTQ: printer round trip *)
-Record fq_layout := mkql { q_eol : list N; q_sep : list N; q_plus : list N; q_qual : list N; q_blank : list N }.
+(* [q_seq]: the nucleotides as written in the file (upper, lower or mixed case) *)
+Record fq_layout := mkql { q_eol : list N; q_sep : list N; q_plus : list N; q_qual : list N; q_blank : list N; q_seq : list N }.
 
 Definition print_fq_body (lr : fq_layout * rec) : list N :=
   let '(l, r) := lr in
   rid r ++ (match rdef r with [] => [] | d => q_sep l ++ d end) ++ q_eol l ++
-  rseq r ++ q_eol l ++ [43%N] ++ q_plus l ++ q_eol l ++ q_qual l ++ q_eol l ++ q_blank l.
+  q_seq l ++ q_eol l ++ [43%N] ++ q_plus l ++ q_eol l ++ q_qual l ++ q_eol l ++ q_blank l.
 Definition print_fq (lr : fq_layout * rec) : list N := 64%N :: print_fq_body lr.
 Definition print_fastq (lrs : list (fq_layout * rec)) : list N := concat (map print_fq lrs).
 
@@ -1977,7 +1990,7 @@ Definition valid_fq (shift : N) (withq : bool) (lr : fq_layout * rec) : Prop :=
   Forall (fun c => is_eol c = false) (q_plus l) /\
   rid r <> [] /\ Forall (fun c => is_sep c = false) (rid r) /\
   Forall (fun c => is_eol c = false) (rdef r) /\ (forall c d, rdef r = c :: d -> is_space c = false) /\
-  rseq r <> [] /\ Forall (fun c => is_seqlow c = true) (rseq r) /\
+  q_seq l <> [] /\ Forall (fun c => is_seqlow (lower c) = true) (q_seq l) /\ map lower (q_seq l) = rseq r /\
   Forall (fun c => is_eol c = false) (q_qual l) /\ length (q_qual l) = length (rseq r) /\
   rqual r = (if withq then Some (unshift shift (q_qual l)) else None) /\ rtax r = None /\ rsci r = [].
 
@@ -2001,13 +2014,13 @@ Proof.
   inversion Hf; subst. cbn [fq_run]. unfold fq_step at 1. cbn [fq_s fq_idb fq_defb fq_seqb fq_qualb fq_id fq_def fq_out].
   rewrite H1. rewrite IH by assumption. cbn [rev]. rewrite <- app_assoc. reflexivity.
 Qed.
-Lemma qrun_seq : forall sq idb defb seqb qualb id def out, Forall (fun c => is_seqlow c = true) sq ->
-  run (mkfq 6%nat idb defb seqb qualb id def out) sq = Some (mkfq 6%nat idb defb (rev sq ++ seqb) qualb id def out).
+Lemma qrun_seq : forall sq idb defb seqb qualb id def out, Forall (fun c => is_seqlow (lower c) = true) sq ->
+  run (mkfq 6%nat idb defb seqb qualb id def out) sq = Some (mkfq 6%nat idb defb (rev (map lower sq) ++ seqb) qualb id def out).
 Proof.
   induction sq as [|c sq IH]; intros idb defb seqb qualb id def out Hf; [reflexivity|].
   inversion Hf; subst. cbn [fq_run]. unfold fq_step at 1. cbn [fq_s fq_idb fq_defb fq_seqb fq_qualb fq_id fq_def fq_out].
-  destruct (seqlow_facts c H1) as (Hl & Hs & _). unfold is_sep in Hs. apply orb_false_iff in Hs. destruct Hs as [_ He].
-  rewrite He, Hl, H1. rewrite IH by assumption. cbn [rev]. rewrite <- app_assoc. reflexivity.
+  destruct (seqany_facts c H1) as (Hs & _). unfold is_sep in Hs. apply orb_false_iff in Hs. destruct Hs as [_ He].
+  rewrite He, H1. rewrite IH by assumption. cbn [map rev]. rewrite <- app_assoc. reflexivity.
 Qed.
 Lemma qrun_plus : forall pl idb defb seqb qualb id def out, Forall (fun c => is_eol c = false) pl ->
   run (mkfq 8%nat idb defb seqb qualb id def out) pl = Some (mkfq 8%nat idb defb seqb qualb id def out).
@@ -2057,6 +2070,16 @@ Qed.
 Lemma eol_split : forall e, e = [10%N] \/ e = [13%N; 10%N] -> exists e0 E, e = e0 :: E /\ is_eol e0 = true /\ Forall eolb'' E.
 Proof. intros e [H|H]; subst e; eexists; eexists; split; try reflexivity; split; try reflexivity; repeat constructor. Qed.
 
+Lemma lower_idem : forall c, lower (lower c) = lower c.
+Proof.
+  intros c. unfold lower at 2 3. destruct (is_upper c) eqn:E; [|unfold lower; rewrite E; reflexivity].
+  unfold lower, is_upper in *. apply andb_true_iff in E. destruct E as [E1 E2]. apply N.leb_le in E1, E2.
+  destruct ((65 <=? c + 32) && (c + 32 <=? 90))%N eqn:K; [|reflexivity].
+  apply andb_true_iff in K. destruct K as [K1 K2]. apply N.leb_le in K1, K2. lia.
+Qed.
+Lemma map_lower_idem : forall l, map lower (map lower l) = map lower l.
+Proof. induction l as [|c l IH]; [reflexivity|]. cbn [map]. rewrite lower_idem, IH. reflexivity. Qed.
+
 Lemma seqlow_map_lower : forall l, Forall (fun c => is_seqlow c = true) l -> map lower l = l.
 Proof. induction 1 as [|c l Hc Hl IH]; [reflexivity|]. cbn. rewrite IH. destruct (seqlow_facts c Hc) as (H & _). rewrite H. reflexivity. Qed.
 
@@ -2067,7 +2090,7 @@ Lemma qrun_record : forall l r idb defb seqb qualb id def out, valid_fq shift wi
     Some (mkfq 11%nat idb' defb' seqb' qualb' id' def' (r :: out)).
 Proof.
   intros l [rid0 rdef0 rseq0 rqual0 rtax0 rsci0] idb defb seqb qualb id def out
-    (Heol & Hsepne & Hsep & Hblank & Hplus & Hidne & Hid & Hdef & Hdef0 & Hsqne & Hsq & Hq & Hqlen & Hrq & Hrt & Hrs).
+    (Heol & Hsepne & Hsep & Hblank & Hplus & Hidne & Hid & Hdef & Hdef0 & Hsqne & Hsq & Hsm & Hq & Hqlen & Hrq & Hrt & Hrs).
   cbn [rid rdef rseq rqual rtax rsci] in *. subst rtax0 rsci0.
   destruct (eol_split _ Heol) as (e0 & E & He & He0 & HE).
   unfold print_fq_body. cbn [rid rdef rseq]. rewrite He.
@@ -2076,8 +2099,8 @@ Proof.
   unfold is_sep in Hi0. rewrite Hi0.
   rewrite fq_run_app, qrun_id by assumption.
   assert (Hidb : rev (rev ids ++ [i0]) = i0 :: ids) by (rewrite rev_app_distr, rev_involutive; reflexivity).
-  destruct rseq0 as [|s0 sq]; [contradiction|]. inversion Hsq as [|? ? Hs0 Hsq']; subst.
-  destruct (seqlow_facts s0 Hs0) as (Hls0 & Hss0 & _). unfold is_sep in Hss0. apply orb_false_iff in Hss0. destruct Hss0 as [_ Hs0e].
+  destruct (q_seq l) as [|s0 sq] eqn:Hqsq; [contradiction|]. inversion Hsq as [|? ? Hs0 Hsq']; subst.
+  destruct (seqany_facts s0 Hs0) as (Hss0 & _). unfold is_sep in Hss0. apply orb_false_iff in Hss0. destruct Hss0 as [_ Hs0e].
   destruct (q_qual l) as [|q0 qs] eqn:Hqq; [discriminate|]. inversion Hq as [|? ? Hq0 Hqs]; subst.
   (* from state 5 on *)
   assert (Htail : forall idb2 defb2 seqb2 qualb2 def2,
@@ -2085,14 +2108,14 @@ Proof.
     run (mkfq 5%nat idb2 defb2 seqb2 qualb2 (i0 :: ids) def2 out)
         (E ++ (s0 :: sq) ++ (e0 :: E) ++ [43%N] ++ q_plus l ++ (e0 :: E) ++ (q0 :: qs) ++ (e0 :: E) ++ q_blank l) =
     Some (mkfq 11%nat idb' defb' seqb' qualb' id' def'
-               (mkrec (i0 :: ids) def2 (s0 :: sq) (if withq then Some (unshift shift (q0 :: qs)) else None) None [] :: out))).
+               (mkrec (i0 :: ids) def2 (map lower (s0 :: sq)) (if withq then Some (unshift shift (q0 :: qs)) else None) None [] :: out))).
   { intros idb2 defb2 seqb2 qualb2 def2.
     rewrite fq_run_app, qrun_eols by auto.
-    cbn [app fq_run]. unfold fq_step at 1. cbn [fq_s fq_idb fq_defb fq_seqb fq_qualb fq_id fq_def fq_out]. rewrite Hs0e, Hls0.
+    cbn [app fq_run]. unfold fq_step at 1. cbn [fq_s fq_idb fq_defb fq_seqb fq_qualb fq_id fq_def fq_out]. rewrite Hs0e.
     rewrite fq_run_app, qrun_seq by assumption.
-    cbn [app fq_run]. rewrite qstep6_eol by (auto; destruct (rev sq); discriminate).
-    assert (Hsb : rev (rev sq ++ [s0]) = s0 :: sq) by (rewrite rev_app_distr, rev_involutive; reflexivity). rewrite Hsb.
-    rewrite (seqlow_map_lower (s0 :: sq)) by (constructor; assumption).
+    cbn [app fq_run]. rewrite qstep6_eol by (auto; destruct (rev (map lower sq)); discriminate).
+    assert (Hsb : rev (rev (map lower sq) ++ [lower s0]) = map lower (s0 :: sq)) by (rewrite rev_app_distr, rev_involutive; reflexivity). rewrite Hsb.
+    rewrite map_lower_idem.
     rewrite fq_run_app, qrun_eols by auto.
     cbn [app fq_run]. unfold fq_step at 1. cbn [fq_s fq_idb fq_defb fq_seqb fq_qualb fq_id fq_def fq_out].
     change (is_eol 43) with false. change (43 =? 43)%N with true. cbv iota.
